@@ -978,6 +978,11 @@ func (as *AbacoSource) readerMainLoop() {
 	defer ticker.Stop()
 	as.lastread = time.Now()
 
+	// Frames and bytes filled in for lost packets, not yet reported with a buffer. They must
+	// survive ticks that end early because some other group has no data yet.
+	var droppedFrames int
+	var droppedBytes int
+
 awaitmoredata:
 	for {
 		select {
@@ -993,8 +998,6 @@ awaitmoredata:
 		case <-ticker.C:
 			// read from the UDP port or ring buffer
 			var lastSampleTime time.Time
-			var droppedFrames int
-			var droppedBytes int
 			for _, pp := range as.producers {
 				allPackets, err := pp.ReadAllPackets()
 				lastSampleTime = time.Now()
@@ -1084,6 +1087,7 @@ awaitmoredata:
 				droppedBytes:   droppedBytes,
 				droppedFrames:  droppedFrames,
 			}
+			droppedFrames, droppedBytes = 0, 0
 			if bytesProcessed > 0 {
 				timeout.Reset(timeoutPeriod)
 			}
